@@ -25,6 +25,13 @@ func genPubSub(seed uint64, tier, variant string) any {
 	p.Opt.KeepAliveMs, p.Opt.WriteTimeoutMs = 3600_000, 600_000
 	p.Opt.DisableCache = r.IntN(2) == 0
 	p.Opt.DisableRetry = true
+	if variant == "resp2" {
+		// RESP2: a subscribed connection accepts nothing but (un)subscribe commands, so the client keeps a second
+		// connection for its subscriptions (pipe.r2p), dialled lazily under a lock that the lock seam of the hook
+		// commits 3ef6acd / the r2p one hands to the scheduler
+		p.Opt.RESP2, p.Opt.DisableCache = true, true
+		p.X["resp2"] = true
+	}
 	p.Sched = SchedSpec{CutProb: pick(r, 0.0, 0.4), MaxSteps: 8000, TickWeight: 0.3}
 	nch := 3
 	withClose := r.IntN(5) == 0
@@ -102,6 +109,11 @@ func execPubSub(t *testing.T, plan any, out *Outcome) {
 	closeAt, hasClose := planInt(p, "close_at")
 	closeStart, closeEnd := -1, -1
 	e := standardRun(t, out.Seed, p, out, runHooks{
+		beforeClient: func(e *env) {
+			if r2, _ := p.X["resp2"].(bool); r2 {
+				rwLockSeam.Store(true)
+			}
+		},
 		afterSetup: func(e *env) {
 			if !hasClose {
 				return
